@@ -201,12 +201,35 @@ def sensitivity(ctx, check_fn):
             except build.BuildError as e:
                 res["skipped"].append({"id": m["id"], "why": "does not build: %s" % e})
             M.restore(scratch)
+        # the other direction: a seeded sample of behaviour-preserving edits must leave this property's rules silent
+        import random
+        neutral = [m for m in M.load() if m.get("kind") == "neutral"]
+        rnd = random.Random(int(os.environ.get("VERIF_SEED", "0") or 0) * 1000 + int(ctx.prop[1:]))
+        sample = rnd.sample(neutral, min(6, len(neutral)))
+        res["neutral_silent"], res["neutral_alarm"] = [], []
+        for m in sample:
+            err = M.apply(m, scratch)
+            if err:
+                M.restore(scratch)
+                continue
+            sub = Ctx(ctx.prop, "quick", repo=scratch)
+            try:
+                check_fn(sub)
+                known = {k["key"] for k in load_known() if k.get("status") == "known"}
+                v = [o for o in sub.obs if o["status"] == "violated" and o["key"] not in known]
+                (res["neutral_alarm"] if v else res["neutral_silent"]).append({"id": m["id"], "reported": [o["key"] for o in v][:3]})
+            except build.BuildError as e:
+                res["skipped"].append({"id": m["id"], "why": "does not build: %s" % e})
+            M.restore(scratch)
     finally:
         shutil.rmtree(scratch, ignore_errors=True)
-        for cfg in ("E", "D", "X", "Er"):
-            pass
     ctx.sensitivity = res
     print("sensitivity self-test: %d caught, %d missed, %d skipped (of %d changes that break %s)" % (
         len(res["caught"]), len(res["missed"]), len(res["skipped"]), len(cat), ctx.prop))
     for x in res["missed"]:
         print("  MISSED by %s rules: %s" % (ctx.prop, x["id"]))
+    if "neutral_silent" in res:
+        print("specificity self-test: %d of %d sampled behaviour-preserving edits leave %s silent" % (
+            len(res["neutral_silent"]), len(res["neutral_silent"]) + len(res["neutral_alarm"]), ctx.prop))
+        for x in res["neutral_alarm"]:
+            print("  ALARM on a behaviour-preserving edit (a defect of the rules, not of the repository): %s %s" % (x["id"], x["reported"]))
